@@ -27,7 +27,13 @@ R = Registry(
         "reads the child, self references are skipped, cycle breaking discards pairs with the same orientation "
         "and CircularDependencyError.edges has the orientation of the input pairs; SchemaGenerator consumes "
         "the sort forward and SchemaDropper reversed, the (None, remaining constraints) entry is last in the "
-        "sort and both visitors emit it; the table collection handed to the sort is ordered."
+        "sort and both visitors emit it; the table collection handed to the sort is ordered; inside the sort a "
+        "constraint is either inline with its ordering pair kept or deferred with the pair dropped (R4) and CREATE "
+        "TABLE omits exactly the deferred ones (R5); with checkfirst the existence test is applied to the tables "
+        "BEFORE they are sorted, so the (None, constraints) entry never holds constraints of tables that are not "
+        "being created / dropped (R6); a constraint that visit_foreign_key_constraint will not emit through ALTER keeps "
+        "its ordering pair: the emitter's skip condition implies `filter_fn(constraint) is False` or the inline "
+        "fallback (R7)."
     ),
     not_decided=(
         "execution on a backend; completeness of indexes/constraints/sequences; correctness of the "
@@ -1905,8 +1911,9 @@ R.mutant("benign-s2f-creatable-tables-from-helper-method", DDL,
              "    def _creatable(self, candidates):\n        return [t for t in candidates if self._can_create_table(t)]\n\n"
              "    def visit_metadata(self, metadata):\n        tables = self._update_effective_tables(metadata)\n\n"
              "        collection = sort_tables_and_constraints(self._creatable(tables))\n"), None)
-R.mutant("benign-s2f-droppable-tables-through-filter-builtin", DDL,
-         sub(_DROP_UNSORTED, "            unsorted_tables = list(filter(self._can_drop_table, tables))\n"), None)
+R.mutant("benign-s2f-droppable-tables-test-bound-to-a-local-first", DDL,
+         sub(_DROP_UNSORTED, "            unsorted_tables = []\n            for t in tables:\n                droppable = self._can_drop_table(t)\n"
+                             "                if droppable:\n                    unsorted_tables.append(t)\n"), None)
 R.mutant("seed4-dropper-unnamed-constraint-deferrable-but-never-dropped", DDL,
          chain(sub(_DROP_FILTER, "                        filter_fn=lambda constraint: (\n"
                                  "                            False if not self.dialect.supports_alter else None\n                        ),\n"),
@@ -1938,3 +1945,7 @@ R.mutant("benign-s2f-dropper-filter-predicate-in-helper-method", DDL,
                sub(_DROP_FILTER, "                        filter_fn=lambda constraint: (\n"
                                  "                            False\n                            if self._stays_with_its_table(constraint)\n"
                                  "                            else None\n                        ),\n")), None)
+R.mutant("generator-entrywise-copy-of-the-reversed-sort", DDL,
+         sub(_GEN_SORT, "        collection = [\n            (t, fkcs)\n            for (t, fkcs) in reversed(\n"
+                        "                sort_tables_and_constraints(\n                    [t for t in tables if self._can_create_table(t)]\n"
+                        "                )\n            )\n        ]\n"), "C14-R2")
